@@ -70,6 +70,12 @@ func (c *Ctx) heapWFAxiom(key, name string) string {
 		return fmt.Sprintf("(forall ((o Int) (i Int)) (! (and (>= (pobj (select (select %s o) i)) 0) (< (pobj (select (select %s o) i)) %s)) :pattern ((select (select %s o) i))))", name, name, bound, name)
 	}
 	if key != "Slice" {
+		if t, ok := sortTypes[key]; ok {
+			cell := fmt.Sprintf("(select (select %s o) i)", name)
+			if w := c.wfTerm(cell, t, bound, 0); w != "true" {
+				return fmt.Sprintf("(forall ((o Int) (i Int)) (! %s :pattern (%s)))", w, cell)
+			}
+		}
 		return ""
 	}
 	return fmt.Sprintf("(forall ((o Int) (i Int)) (! (and (wfslice (select (select %s o) i)) (< (sobj (select (select %s o) i)) %s)) :pattern ((select (select %s o) i))))", name, name, bound, name)
@@ -78,8 +84,13 @@ func (c *Ctx) heapWFAxiom(key, name string) string {
 // wantSliceWF adds (once) the well-formedness axiom for a heap of slices
 // that a spec expression reads.
 func (c *Ctx) wantSliceWF(key, name string) {
-	if (key != "Slice" && key != "Ptr") || c.declared["slicewf:"+name] {
+	if c.declared["slicewf:"+name] {
 		return
+	}
+	if key != "Slice" && key != "Ptr" {
+		if _, ok := sortTypes[key]; !ok {
+			return
+		}
 	}
 	if _, isDef := c.defs[name]; isDef {
 		return
@@ -90,7 +101,9 @@ func (c *Ctx) wantSliceWF(key, name string) {
 		return
 	}
 	c.declared["slicewf:"+name] = true
-	c.lateAxioms = append(c.lateAxioms, "(assert "+c.heapWFAxiom(key, name)+")")
+	if ax := c.heapWFAxiom(key, name); ax != "" {
+		c.lateAxioms = append(c.lateAxioms, "(assert "+ax+")")
+	}
 }
 
 // newHeapConst declares a havocked heap.
@@ -198,6 +211,7 @@ type modItem struct {
 	sortKey string
 	obj     string // object id term
 	idx     string // element index term; "" = the whole object
+	all     bool   // every object of the sort (opt havoc / noframe)
 }
 
 // frameFormula: every cell of hNew outside the mod items and below bound
@@ -205,6 +219,9 @@ type modItem struct {
 func frameFormula(key, hNew, hOld, lower, bound string, mods []modItem, isMap bool) string {
 	var whole, elems []string
 	for _, m := range mods {
+		if m.all && m.sortKey == key {
+			return "true"
+		}
 		if m.sortKey != key {
 			continue
 		}
@@ -577,6 +594,9 @@ func (c *Ctx) newFrame(fn *ssa.Function, contract *FuncContract, depth int) *fra
 					_ = id
 				}
 				if obj := d.Object(); obj != nil {
+					if v, isVar := obj.(*types.Var); isVar && v.IsField() {
+						continue // x.f: the selector's field is not a variable named f
+					}
 					fr.debug[obj.Name()] = append(fr.debug[obj.Name()], d)
 				} else if d.Expr != nil {
 					// expression reference: indexed by its source text, e.g. `p2.Polygons()`
@@ -1145,6 +1165,9 @@ func (fr *frame) execBlock(b *ssa.BasicBlock, st *State) {
 				fr.curInstr = instrIndex(b, ins)
 				for _, a := range as {
 					v := env.trBool(a.C.Expr)
+					if ifIns, ok := ins.(*ssa.If); ok && a.Then {
+						v = implies(fr.val(ifIns.Cond).T, v)
+					}
 					o := fr.oblige("assert", a.C.Label, propsOr(a.C.Props, fr.props), v, a.C.Text+"   at `"+a.Text+"`", ins.Pos())
 					o.Using, o.Extra = fr.c.splitUsing(env, a.C.Using)
 				}
@@ -1205,6 +1228,17 @@ func (fr *frame) locateAsserts() {
 				if !strings.Contains(P.sourceLine(pp), a.Text) {
 					continue
 				}
+				if a.Then {
+					ifIns, isIf := b.Instrs[len(b.Instrs)-1].(*ssa.If)
+					if !isIf {
+						continue
+					}
+					if _, ok := first[pp.Line]; !ok {
+						lines = append(lines, pp.Line)
+					}
+					first[pp.Line] = ifIns // last such block wins: the final conjunct of the condition
+					continue
+				}
 				if _, ok := first[pp.Line]; !ok {
 					first[pp.Line] = ins
 					lines = append(lines, pp.Line)
@@ -1215,7 +1249,7 @@ func (fr *frame) locateAsserts() {
 		if a.Ord-1 < len(lines) {
 			ins := first[lines[a.Ord-1]]
 			fr.assertAt[ins] = append(fr.assertAt[ins], a)
-		} else {
+		} else if !a.Optional {
 			fr.c.errs = append(fr.c.errs, fmt.Sprintf("%s: assert [%s]: no source line #%d containing `%s`", funcDisplay(fr.fn), a.C.Label, a.Ord, a.Text))
 		}
 	}
